@@ -29,7 +29,12 @@ BASES = [
 
 
 # long / malformed inputs that are only listed (no corruption): over-long elements far beyond every limit
-LISTED = [b"A " + b"0" * 255 + b"1 KV", b"A " + b"0" * 256 + b"7,." + b"0" * 256 + b"1", b"A 1E" + b"0" * 256, b"A 1E000003 V", b"A 25E-000003 KOHM", b"A 1." + b"0" * 512 + b"E+01",
+PUNCT = [bytes([c]) for c in range(0x21, 0x7f) if not chr(c).isalnum()]
+LISTED = ([b"A AB" + c + b"C" for c in PUNCT] + [b"AB" + c + b"C:X 1" for c in PUNCT] + [b"A 1" + c + b"2" for c in PUNCT]          # every punctuation byte inside character data / a mnemonic / a number
+          + [x for c in list(range(0x80, 0x100)) + [0x0b, 0x00, 0x7f] for x in (b"A 1" + bytes([c]) + b",2", b"A 1," + bytes([c]) + b"2", b"A " + bytes([c]) + b"1", b"A 1;" + bytes([c]) + b"B", b"A?" + bytes([c]) + b"1")]
+          + [b"A?\t1", b"A?\x0c;B?", b"A?\r\n", b"*IDN?\r\n", b"A?\t;B?", b"A #b101", b"A #q17,#h1f", b"A 1E2147483648", b"A 1E-4294967296", b"A 1.5e99999999999999999999",
+             b"A #B" + b"0" * 250 + b"101010", b"A #H" + b"0" * 256 + b"fF;B", b"A #Q" + b"0" * 300 + b"377", b"A 0.25 V,.75 V", b"A 2 KHZ, .5 MHZ", b"A ASC2,REAL", b"A X,Y,Z"])
+LISTED += [b"A " + b"0" * 255 + b"1 KV", b"A " + b"0" * 256 + b"7,." + b"0" * 256 + b"1", b"A 1E" + b"0" * 256, b"A 1E000003 V", b"A 25E-000003 KOHM", b"A 1." + b"0" * 512 + b"E+01",
           b"A #565536" + b"x" * 65536, b"A #6100000" + b"y" * 100000 + b",#H10;B", b"A #565535" + b"z" * 65535 + b";B",
           b"A " + b",".join(b"%d" % i for i in range(1, 301)), b"A 'p\x7fq',\"\x01\x7f\"", b"A (@1,'dev\x7fA',2!3)", b"A?;\tB", b"A;\r:B", b"A low_noise,a_b,norm_",
           ] + [b"A #%d%s%s" % (w, (b"%d" % 5).rjust(w, b"0"), b"he;,o") for w in range(1, 10)] + [b"A #%d%s%s,2" % (w, (b"%d" % 12).rjust(w, b"0"), b"0123456789\n'") for w in range(2, 10)] + [
